@@ -1765,7 +1765,128 @@ class Interp:
         return self.join_env(exit_env, brk)
 
     def st_For(self, s, env, ctx):
+        fused = self._fuse_generator(s, env, ctx)
+        if fused is not None:
+            return self.exec_block(fused, env, ctx)
         return self._loop(s, env, ctx, True)
+
+    def _fuse_generator(self, s, env, ctx):
+        """`for T in gen(args): BODY` with gen a generator function of the same module whose body only yields at statement level:
+        the loop is the generator's body with every `yield e` replaced by `T = e; BODY` (locals of the generator renamed apart).
+        Refused (-> None, the loop is analysed as written) whenever this reading could differ from Python's: BODY leaves the loop
+        by break / continue, the generator returns, yields inside try / with, `yield from`, a yield used as an expression."""
+        import copy
+        it, counter = s.iter, False
+        if isinstance(it, ast.Call) and isinstance(it.func, ast.Name) and it.func.id == "enumerate" and len(it.args) == 1 and not it.keywords and "enumerate" not in env:
+            it, counter = it.args[0], True
+        if not isinstance(it, ast.Call) or s.orelse or not isinstance(it.func, (ast.Name, ast.Attribute)):
+            return None
+        if isinstance(it.func, ast.Name) and (it.func.id in env or ctx.func is not None and it.func.id in ctx.func.locals):
+            return None
+        if isinstance(it.func, ast.Attribute) and not (isinstance(it.func.value, ast.Name) and it.func.value.id == "self" and ctx.func is not None and ctx.func.cls):
+            return None
+        func = None
+        if isinstance(it.func, ast.Name):
+            k = self.prog.lookup("%s.%s" % (ctx.mod.name, it.func.id))
+            func = k[1] if k[0] == "func" else None
+        else:
+            func = self.prog.method(ctx.mod, ctx.func.cls, it.func.attr)
+        if func is None or not getattr(func, "is_generator", False) or func.module is not ctx.mod or func.decorators or func.qname in ctx.stack or \
+                (ctx.func is not None and func.qname == ctx.func.qname) or func.vararg or func.kwarg:
+            return None
+        from .loader import _own_nodes
+
+        def leaves_loop(stmts):
+            # break / continue that belong to *this* loop (not to a loop nested in BODY)
+            for st in stmts:
+                if isinstance(st, (ast.Break, ast.Continue)):
+                    return True
+                if isinstance(st, (ast.For, ast.While, ast.FunctionDef, ast.AsyncFunctionDef, ast.ClassDef)):
+                    continue
+                for fld in ("body", "orelse", "finalbody", "handlers"):
+                    sub = getattr(st, fld, None)
+                    if isinstance(sub, list) and leaves_loop([x.body if isinstance(x, ast.ExceptHandler) else x for x in sub if not isinstance(x, ast.ExceptHandler)] +
+                                                             [y for x in sub if isinstance(x, ast.ExceptHandler) for y in x.body]):
+                        return True
+            return False
+        if leaves_loop(s.body):
+            return None
+        for n in _own_nodes(func.node):
+            if isinstance(n, (ast.Return, ast.YieldFrom, ast.Try, ast.With, ast.Global, ast.Nonlocal)):
+                return None
+        yields = [n for n in _own_nodes(func.node) if isinstance(n, ast.Yield)]
+        stmt_yields = [n for n in _own_nodes(func.node) if isinstance(n, ast.Expr) and isinstance(n.value, ast.Yield)]
+        if len(yields) != len(stmt_yields) or any(y.value.value is None for y in stmt_yields):
+            return None
+        # bind the arguments
+        params = list(func.posparams)
+        pre = "_g%d_" % getattr(s, "lineno", 0)
+        binds = []
+        args = list(it.args)
+        if any(isinstance(a, ast.Starred) for a in args) or any(k.arg is None for k in it.keywords):
+            return None
+        if func.is_method:
+            binds.append((params[0], it.func.value))
+            params = params[1:]
+        if len(args) > len(params):
+            return None
+        given = dict(zip(params, args))
+        for k in it.keywords:
+            if k.arg in given or k.arg not in params + list(func.kwonly):
+                return None
+            given[k.arg] = k.value
+        for p_ in params + list(func.kwonly):
+            if p_ in given:
+                binds.append((p_, given[p_]))
+            elif p_ in func.defaults:
+                binds.append((p_, func.defaults[p_]))
+            else:
+                return None
+        glocals = set(func.locals) | set(func.posparams) | set(func.kwonly)
+
+        class Ren(ast.NodeTransformer):
+            def visit_Name(self, n):
+                return ast.copy_location(ast.Name(pre + n.id, n.ctx), n) if n.id in glocals else n
+
+            def visit_FunctionDef(self, n):
+                return n
+
+            def visit_Lambda(self, n):
+                return n
+        cnt = pre + "count"
+        out = []
+        for p_, e_ in binds:
+            out.append(ast.Assign([ast.Name(pre + p_, ast.Store())], e_))
+        if counter:
+            out.append(ast.Assign([ast.Name(cnt, ast.Store())], ast.Constant(0)))
+        target, body = s.target, s.body
+
+        class Yld(ast.NodeTransformer):
+            def visit_FunctionDef(self, n):
+                return n
+
+            def visit_Lambda(self, n):
+                return n
+
+            def visit_Expr(self, n):
+                if not isinstance(n.value, ast.Yield):
+                    return n
+                val = n.value.value
+                if counter:
+                    val = ast.Tuple([ast.Name(cnt, ast.Load()), val], ast.Load())
+                new = [ast.Assign([copy.deepcopy(target)], val)] + copy.deepcopy(body)
+                if counter:
+                    new.append(ast.AugAssign(ast.Name(cnt, ast.Store()), ast.Add(), ast.Constant(1)))
+                return [ast.copy_location(x, n) for x in new]
+        gbody = [Yld().visit(Ren().visit(copy.deepcopy(st))) for st in func.node.body
+                 if not (isinstance(st, ast.Expr) and isinstance(st.value, ast.Constant) and isinstance(st.value.value, str))]
+        flat = []
+        for x in gbody:
+            flat.extend(x if isinstance(x, list) else [x])
+        out = [ast.copy_location(x, s) for x in out] + flat
+        for x in out:
+            ast.fix_missing_locations(x)
+        return out
 
     def st_While(self, s, env, ctx):
         return self._loop(s, env, ctx, False)
